@@ -43,8 +43,8 @@ pub mod shadow_std {
 
     pub mod fs {
         pub use super::super::simfs::{
-            canonicalize, copy, create_dir, create_dir_all, exists, metadata, read, read_dir, read_link, read_to_string, remove_dir,
-            remove_dir_all, remove_file, rename, symlink_metadata, write, DirEntry, File, FileType, Metadata, OpenOptions,
+            canonicalize, copy, create_dir, create_dir_all, exists, hard_link, metadata, read, read_dir, read_link, read_to_string, remove_dir,
+            remove_dir_all, remove_file, rename, set_permissions, symlink_metadata, write, DirEntry, File, FileType, Metadata, OpenOptions,
             ReadDir,
         };
         pub use ::std::fs::*;
@@ -1230,6 +1230,11 @@ pub mod simfs {
         pub fn modified(&self) -> io::Result<super::simtime::SystemTime> {
             Ok(super::simtime::SystemTime::from_nanos(self.mtime_ns))
         }
+        /// permission bits are not modelled: what a fresh checkout has
+        pub fn permissions(&self) -> std::fs::Permissions {
+            use std::os::unix::fs::PermissionsExt;
+            std::fs::Permissions::from_mode(if self.is_dir { 0o755 } else { 0o644 })
+        }
         pub fn created(&self) -> io::Result<super::simtime::SystemTime> {
             self.modified()
         }
@@ -1356,6 +1361,11 @@ pub mod simfs {
         }
     }
 
+    /// `fs::set_permissions`: permission bits are not modelled; the path must exist
+    pub fn set_permissions<P: AsRef<ArgPath>>(p: P, _perm: std::fs::Permissions) -> io::Result<()> {
+        let p: &Path = argp(&p);
+        stat_inner(p).map(|_| ())
+    }
     pub fn metadata<P: AsRef<ArgPath>>(p: P) -> io::Result<Metadata> {
         let p: &Path = argp(&p);
         stat(p.as_ref())
@@ -1976,6 +1986,20 @@ pub mod simfs {
         Ok(n)
     }
 
+    /// `fs::hard_link` (round 17, control `w17_r2`: a lock file created by linking a complete
+    /// private file): the new name must not exist (that is what makes it a lock); the two names
+    /// then hold the same bytes (that later writes through one name show under the other is not
+    /// modelled)
+    pub fn hard_link<P: AsRef<ArgPath>, Q: AsRef<ArgPath>>(original: P, link: Q) -> io::Result<()> {
+        let original: &Path = argp(&original);
+        let link: &Path = argp(&link);
+        if stat_inner(link).is_ok() {
+            return Err(io::Error::from(io::ErrorKind::AlreadyExists));
+        }
+        let data = read(original)?;
+        write(link, data)
+    }
+
     #[derive(Clone, Debug, Default)]
     pub struct OpenOptions {
         read: bool,
@@ -2291,6 +2315,10 @@ pub mod simfs {
                     crash()
                 }
             }
+        }
+        /// permission bits are not modelled (round 17, controls `w17_r1`, `w17_r2`)
+        pub fn set_permissions(&self, _perm: std::fs::Permissions) -> io::Result<()> {
+            Ok(())
         }
         /// `File::set_modified` (round 17, control `v16_r3`: cache entries refreshed on use)
         pub fn set_modified(&self, t: super::simtime::SystemTime) -> io::Result<()> {
